@@ -50,6 +50,15 @@ func init() {
 		if k := strings.Index(op, "+"); k >= 0 {
 			op, op2 = op[:k], op[k+1:]
 		}
+		// "copy~copy", "copy~move": the first operation fails half-way (a file is missing / a name is blocked), the cause is
+		// repaired, and the operation is tried AGAIN through the same handle into the SAME destination
+		retry := false
+		dstSecond := dst2
+		if k := strings.Index(op, "~"); k >= 0 {
+			op, op2 = op[:k], op[k+1:]
+			retry = true
+			dstSecond = dst
+		}
 		for _, d := range []string{src, dst, dst2, out, filepath.Join(src, "sub")} {
 			os.MkdirAll(d, 0755)
 		}
@@ -134,9 +143,9 @@ func init() {
 			}
 			switch op2 {
 			case "copy":
-				doOp2 = func() error { return d.Copy(dst2) }
+				doOp2 = func() error { return d.Copy(dstSecond) }
 			case "move":
-				doOp2 = func() error { return d.Move(dst2) }
+				doOp2 = func() error { return d.Move(dstSecond) }
 			case "remove":
 				doOp2 = func() error { return d.Remove() }
 			}
@@ -156,9 +165,9 @@ func init() {
 			}
 			switch op2 {
 			case "copy":
-				doOp2 = func() error { return c.Copy(dst2) }
+				doOp2 = func() error { return c.Copy(dstSecond) }
 			case "move":
-				doOp2 = func() error { return c.Move(dst2) }
+				doOp2 = func() error { return c.Move(dstSecond) }
 			case "remove":
 				doOp2 = func() error { return c.Remove() }
 			}
@@ -191,7 +200,25 @@ func init() {
 		wD, _ := syscall.InotifyAddWatch(fd, dst, mask)
 		wD2, _ := syscall.InotifyAddWatch(fd, dst2, mask)
 		res := "ok"
-		if e := doOp(); e != nil {
+		if retry {
+			if e := doOp(); e != nil {
+				res = "err"
+			}
+			// repair what made it fail
+			for i := 5; i+2 < len(a); i += 3 {
+				switch a[i+1] {
+				case "missing":
+					ioutil.WriteFile(filepath.Join(src, a[i]), []byte(a[i+2]), 0644)
+				case "blocked":
+					os.RemoveAll(filepath.Join(dst, a[i]))
+				}
+			}
+			if e := doOp2(); e != nil {
+				res += "~err"
+			} else {
+				res += "~ok"
+			}
+		} else if e := doOp(); e != nil {
 			res = "err"
 		} else if doOp2 != nil {
 			if e := doOp2(); e != nil {
